@@ -2,10 +2,6 @@
 
 package lz
 
-// lzvc-props: C01 C02
-// (GSAP's Parse and sort are verified relative to the ASSUMED contract of suffix.Sort; this stand-in
-// exercises GSAP end to end, so it also runs under the properties GSAP's share of which rests on it)
-//
 // Bounded stand-in for C12.
 //
 //  1. GSAP itself: on histories without Parse(nil) every emitted match has exactly the length of
